@@ -70,6 +70,9 @@ pub struct ExploreStats {
     /// reproduce the recorded option counts (0 when the code under test is a
     /// deterministic function of the schedule, as it is on the unchanged tree).
     pub replay_retries: u64,
+    /// Set when a prefix kept diverging: the exploration went on from what the code
+    /// actually did, and is no longer an exhaustive enumeration for this scenario.
+    pub nondeterministic: bool,
 }
 
 /// Machinery failure (never a verdict).
@@ -136,10 +139,14 @@ pub fn explore_until(
             // code under test may depend on something the schedule does not fix, e.g. addresses).
             retries_here += 1;
             stats.replay_retries += 1;
-            if retries_here > MAX_RETRIES {
-                return Err(Divergence(d));
+            if retries_here <= MAX_RETRIES {
+                continue;
             }
-            continue;
+            // The code under test does not behave as a function of the schedule (and does so
+            // consistently): go on from what it actually did. The scenario is reported as
+            // explored non-exhaustively; violations are still confirmed by replay.
+            let _ = d;
+            stats.nondeterministic = true;
         }
         retries_here = 0;
         stats.max_choice_points = stats.max_choice_points.max(ch.taken.len());
